@@ -150,11 +150,8 @@ theorem up_heap (a : Array (Item α)) (j : Nat) (H : UpInv a j) : IsHeap (up a j
   | case3 a j hj =>
       intro i hi' hpos; exact H.others i hi' hpos (by omega)
 
-/-- `heap.Push` keeps the heap order. -/
-theorem heapPush_isHeap (a : Array (Item α)) (x : Item α) (H : IsHeap a) :
-    IsHeap (heapPush a x) := by
-  unfold heapPush
-  apply up_heap
+/-- After the append of `heap.Push` the precondition of `up` holds at the new last index. -/
+theorem upInv_push (a : Array (Item α)) (x : Item α) (H : IsHeap a) : UpInv (a.push x) a.size := by
   constructor
   · intro i hi hpos hne
     have hi' : i < a.size := by simp at hi; omega
@@ -164,6 +161,11 @@ theorem heapPush_isHeap (a : Array (Item α)) (x : Item α) (H : IsHeap a) :
   · intro c hc _ hpc _
     simp at hc
     unfold parent at hpc; omega
+
+/-- `heap.Push` keeps the heap order. -/
+theorem heapPush_isHeap (a : Array (Item α)) (x : Item α) (H : IsHeap a) :
+    IsHeap (heapPush a x) :=
+  up_heap _ _ (upInv_push a x H)
 
 /-! ## `down` -/
 
@@ -360,21 +362,24 @@ theorem isHeap_pop_of_heapOn (b : Array (Item α)) (h : HeapOn b 0 (b.size - 1))
   simp only [Array.getElem_pop]
   exact this
 
+/-- After the `Swap(0, n)` of `heap.Pop` the precondition of `down(h, 0, n)` holds. -/
+theorem downInv_pop (a : Array (Item α)) (H : IsHeap a) (h : 0 < a.size) :
+    DownInv (a.swap 0 (a.size - 1) h (by omega)) 0 (a.size - 1) 0 := by
+  constructor
+  · intro k hk hkpos hkn _ hpk
+    have hk' : k < a.size := by simpa using hk
+    have h1 : k ≠ 0 := by omega
+    have h2 : k ≠ a.size - 1 := by omega
+    have h3 : parent k ≠ a.size - 1 := by have := parent_lt hkpos; omega
+    simp only [Array.getElem_swap, h1, h2, h3, hpk, if_false]
+    exact H k hk' hkpos
+  · intro c _ _ _ _ h0; omega
+
 /-- `heap.Pop` keeps the heap order. -/
 theorem heapPop_isHeap (a : Array (Item α)) (H : IsHeap a) (h : 0 < a.size) :
     IsHeap (heapPop a h).2 := by
   have hn : a.size - 1 ≤ (a.swap 0 (a.size - 1) h (by omega)).size := by simp
-  have hD : DownInv (a.swap 0 (a.size - 1) h (by omega)) 0 (a.size - 1) 0 := by
-    constructor
-    · intro k hk hkpos hkn _ hpk
-      have hk' : k < a.size := by simpa using hk
-      have h1 : k ≠ 0 := by omega
-      have h2 : k ≠ a.size - 1 := by omega
-      have h3 : parent k ≠ a.size - 1 := by have := parent_lt hkpos; omega
-      simp only [Array.getElem_swap, h1, h2, h3, hpk, if_false]
-      exact H k hk' hkpos
-    · intro c _ _ _ _ h0; omega
-  have hH := down_heap _ 0 (a.size - 1) 0 hn hD
+  have hH := down_heap _ 0 (a.size - 1) 0 hn (downInv_pop a H h)
   show IsHeap (down (a.swap 0 (a.size - 1) h (by omega)) 0 (a.size - 1)).pop
   apply isHeap_pop_of_heapOn
   simpa [size_down] using hH
@@ -423,3 +428,69 @@ theorem heapInit_empty : heapInit (#[] : Array (Item α)) = #[] := by
 
 theorem isHeap_empty : IsHeap (#[] : Array (Item α)) := by
   intro i hi; simp at hi
+
+/-! ## Non-vacuity examples and axiom audit
+
+`IsHeap` is decidable, so concrete heaps are checked by `decide`.  Concrete runs of the (well-founded)
+`up` / `down` loops are evaluated in the kernel (`decide +kernel`: no `native_decide`, no extra axiom). -/
+
+instance (a : Array (Item α)) : Decidable (IsHeap a) := by
+  unfold IsHeap; exact inferInstance
+
+section Examples
+
+/-- A six-element heap with extreme (`minInt64` / `maxInt64`), negative and equal priorities. -/
+def exHeap : Array (Item String) :=
+  #[⟨"e", -9223372036854775808, 4⟩, ⟨"b", -3, 1⟩, ⟨"f", -3, 5⟩,
+    ⟨"d", 9223372036854775807, 3⟩, ⟨"a", 5, 0⟩, ⟨"c", 5, 2⟩]
+
+example : IsHeap exHeap := by decide
+/-- heap order is not sortedness: `exHeap` is a heap although ("d", maxInt64) precedes ("a", 5). -/
+example : less exHeap[4] exHeap[3] = true := by decide
+example : ¬ IsHeap (#[⟨(), 1, 0⟩, ⟨(), 0, 1⟩] : Array (Item Unit)) := by decide
+/-- equal priorities: the earlier insertion index must be the parent. -/
+example : ¬ IsHeap (#[⟨(), 7, 1⟩, ⟨(), 7, 0⟩] : Array (Item Unit)) := by decide
+
+/-- `heap.Push` of an item that has to travel from the last leaf to the root (two swaps). -/
+example : heapPush exHeap ⟨"z", -9223372036854775808, 3⟩ =
+    #[⟨"z", -9223372036854775808, 3⟩, ⟨"b", -3, 1⟩, ⟨"e", -9223372036854775808, 4⟩,
+      ⟨"d", 9223372036854775807, 3⟩, ⟨"a", 5, 0⟩, ⟨"c", 5, 2⟩, ⟨"f", -3, 5⟩] := by decide +kernel
+example : IsHeap (heapPush exHeap ⟨"z", -9223372036854775808, 3⟩) :=
+  heapPush_isHeap _ _ (by decide)
+
+/-- `heap.Pop`: returns the root; the last leaf `c` sifts down two levels: the tie `(-3,1)` / `(-3,5)`
+picks the left child, then `(5,0)` beats `maxInt64` and is `less` than `c = (5,2)`. -/
+example : heapPop exHeap (by decide) =
+    (⟨"e", -9223372036854775808, 4⟩,
+     #[⟨"b", -3, 1⟩, ⟨"a", 5, 0⟩, ⟨"f", -3, 5⟩, ⟨"d", 9223372036854775807, 3⟩, ⟨"c", 5, 2⟩]) := by
+  decide +kernel
+example : IsHeap (heapPop exHeap (by decide)).2 := heapPop_isHeap _ (by decide) _
+example : ∀ x ∈ exHeap, less x (heapPop exHeap (by decide)).1 = false :=
+  heapPop_min _ (by decide) _
+
+/-- `heap.Init` on an unordered slice (not reachable from priority.go, which only heapifies `[]`). -/
+example : heapInit (#[⟨"a", 5, 0⟩, ⟨"b", -3, 1⟩, ⟨"c", 5, 2⟩, ⟨"d", 0, 3⟩, ⟨"e", -7, 4⟩] : Array (Item String)) =
+    #[⟨"e", -7, 4⟩, ⟨"b", -3, 1⟩, ⟨"c", 5, 2⟩, ⟨"d", 0, 3⟩, ⟨"a", 5, 0⟩] := by decide +kernel
+
+/-- `UpInv` / `DownInv` (hypotheses of `up_heap` / `down_heap`) hold in non-trivial situations where
+the array is *not* a heap: -/
+example : UpInv (exHeap.push ⟨"z", -9223372036854775808, 3⟩) 6 := upInv_push _ _ (by decide)
+example : ¬ IsHeap (exHeap.push ⟨"z", -9223372036854775808, 3⟩) := by decide
+example : DownInv (exHeap.swap 0 5) 0 5 0 := downInv_pop exHeap (by decide) (by decide)
+example : ¬ IsHeap (exHeap.swap 0 5) := by decide
+
+end Examples
+
+#print axioms less_trans
+#print axioms less_total
+#print axioms up_heap
+#print axioms down_heap
+#print axioms heapPush_isHeap
+#print axioms heapPop_isHeap
+#print axioms heapPush_perm
+#print axioms heapPop_perm
+#print axioms heapPop_min
+#print axioms heapInit_isHeap
+
+end Heap
+end VarmqVerif
